@@ -231,8 +231,13 @@ def first_difference(da, db):
     if k == "feather":
         if da["columns"] != db["columns"]:
             return {"where": "#columns", "row": None, "a": _short(da["columns"]), "b": _short(db["columns"])}
+        permuted = (len(da["rows"]) == len(db["rows"]) and da["rows"] != db["rows"]
+                    and sorted(map(canonical, da["rows"])) == sorted(map(canonical, db["rows"])))
         for i, (ra, rb) in enumerate(zip(da["rows"], db["rows"])):
             if ra != rb:
+                if permuted:        # the same rows in another order: the column where they first differ is incidental
+                    return {"where": "#row-order", "row": i, "a": _short(dict(zip(da["columns"], ra)), 600),
+                            "b": _short(dict(zip(db["columns"], rb)), 600)}
                 for c, x, y in zip(da["columns"], ra, rb):
                     if x != y:
                         return {"where": c, "row": i, "a": _short(x), "b": _short(y),
